@@ -65,6 +65,17 @@ func pmat(m models.Model, t float64) ([][]string, error) {
 	return out, nil
 }
 
+func pijStrings(pij *models.Pij, n int) [][]string {
+	out := make([][]string, n)
+	for i := 0; i < n; i++ {
+		out[i] = make([]string, n)
+		for j := 0; j < n; j++ {
+			out[i][j] = fstr(pij.Pij(i, j))
+		}
+	}
+	return out
+}
+
 var dnaPool = map[string]interface{}{}
 
 func protMats(name string) (*mat.Dense, []float64) {
@@ -221,6 +232,39 @@ func runMarkov(env *Env, id string, c markovCase) {
 				}
 				ev.Pe = append(ev.Pe, pe)
 			}
+		}
+		// the same questions asked of ONE matrix object moved from length to length (short, long, tiny, ... as a tree
+		// traversal does): entries 10.. of ts / P; whatever the object keeps from a previous length shows here
+		series := []float64{s1, 100, 1e-8, s4, 0, s3, 100, s2}
+		var obj, obje *models.Pij
+		for k, t := range series {
+			var e error
+			if k == 0 {
+				obj, e = models.NewPij(m, t)
+				if e == nil && analytical {
+					obje, e = models.NewPij(forceEigen{m}, t)
+				}
+			} else {
+				e = obj.SetLength(t)
+				if e == nil && analytical {
+					e = obje.SetLength(t)
+				}
+			}
+			if e != nil {
+				ev.Kind, ev.Msg = "err", e.Error()
+				return
+			}
+			ev.Ts = append(ev.Ts, fstr(t))
+			ev.PM = append(ev.PM, pijStrings(obj, m.NState()))
+			if analytical {
+				ev.Pe = append(ev.Pe, pijStrings(obje, m.NState()))
+			}
+		}
+		ev.Sums = append(ev.Sums, []int{11, 18, 6}, []int{16, 14, 9})
+		if m.NState() > 4 {
+			ev.Expm = append(ev.Expm, 16)
+		} else {
+			ev.Expm = append(ev.Expm, 14, 16)
 		}
 		ev.Kind = "ok"
 	}()
